@@ -26,7 +26,7 @@ func init() {
 				Flavours: []string{"plain", "cover", "386"},
 				Blocks:   16,
 				Procs:    16,
-				Rule: "exhaustive enumeration: Partition: every keep/drop mask for n <= 16 (20 thorough), on exact-size slices and on windows of a larger guard-filled buffer; Rotate: every n <= 400 (1300) and every k in [-n-2, n+2] plus far out-of-range k; every function with counts/offsets near the ends of the int range (MaxInt, MaxInt-1, 2^62, 2^31, MinInt) and far out of range with low 8..62 bits that look like a valid value (m*2^w + d); Chunks/Batches: every len <= 40 (96) x every n in [-1, len+3], on windows with spare capacity; Head/Tail: every len <= 12 x n in [0, len+3]; Stripe: row-length vectors over {0..3}^<=4 x i in [0,4]; At/PtrAt: every len <= 12 x i in [-len-3, len+3]; Rotate of slices of 8..64 MiB (ints, uint32s, 64-byte structs) by shifts of both signs; (thorough only) Rotate of a []byte of 2^31+17 elements by -1 and by 2^31-3; Rotate/Partition/Chunks/Batches instantiated with 15 ordinary element types of every width (byte, named byte slice, int8, bool, uint16, rune, uint32, int, uint64, float32, float64, string, small arrays, interface) on slices of 0..9000 elements around 256, 512, 1024 and 4096 with shifts around 0, n/2, 256, 512 and n. " +
+				Rule: "exhaustive enumeration: Partition: every keep/drop mask for n <= 16 (20 thorough), on exact-size slices and on windows of a larger guard-filled buffer; Rotate: every n <= 400 (1300) and every k in [-n-2, n+2] plus far out-of-range k; every function with counts/offsets near the ends of the int range (MaxInt, MaxInt-1, 2^62, 2^31, MinInt) and far out of range with low 8..62 bits that look like a valid value (m*2^w + d); Chunks/Batches: every len <= 40 (96) x every n in [-1, len+3], on windows with spare capacity; Head/Tail: every len <= 12 x n in [0, len+3]; Stripe: row-length vectors over {0..3}^<=4 x i in [0,4]; At/PtrAt: every len <= 12 x i in [-len-3, len+3]; Rotate of slices of 1..64 MiB (ints, uint32s, 64-byte structs; lengths that are multiples of 4096 and odd lengths, one prime) by shifts of both signs, by shifts sharing a large divisor with the length and by shifts in a simple ratio to it (half rounded either way, a third, all but one), checked after each shift; (thorough only) Rotate of a []byte of 2^31+17 elements by -1 and by 2^31-3; Rotate/Partition/Chunks/Batches instantiated with 15 ordinary element types of every width (byte, named byte slice, int8, bool, uint16, rune, uint32, int, uint64, float32, float64, string, small arrays, interface) on slices of 0..9000 elements around 256, 512, 1024 and 4096 with shifts around 0, n/2, 256, 512 and n. " +
 					"Oracles: stable filter + permutation + append-does-not-clobber for Partition; element i moves to (i+k) mod n and out-of-range k panics for Rotate; concatenation by address, documented lengths/counts, append-does-not-clobber-a-later-subslice, no panic for allowed arguments (incl. empty slice) for Chunks/Batches; direct indexing for the rest. " +
 					"distinct = enumerated argument tuples; non-trivial = the call had a non-empty slice argument",
 				Required:     []string{"partition_masks", "rotate_cases", "chunks_cases", "batches_cases", "batches_of_empty", "head_tail_cases", "stripe_cases", "at_ptrat_cases", "expected_panics_seen", "extreme_argument_cases", "element_type_checks", "typed_rotate_cases", "typed_partition_cases", "typed_element_sweeps", "very_large_slice_rotations"},
@@ -561,7 +561,7 @@ func runC17(c *fw.Ctx) {
 		})
 		c.Add("typed_element_sweeps", 15)
 	}
-	if c.Block < 8 && strconv.IntSize == 64 && c.Begin(idx+80+c.Block) {
+	if strconv.IntSize == 64 && c.Begin(idx+80+c.Block) {
 		// very large slices (8 .. 64 MiB): ints, bytes, 64-byte structs; shifts of both signs
 		type wide struct {
 			ID  int
@@ -570,30 +570,34 @@ func runC17(c *fw.Ctx) {
 		rotate := func(name string, n int, rot func(k int), at func(i int) int) bool {
 			// shifts of both signs; for sizes that are multiples of 1024 also shifts
 			// that share a large divisor with n (many short cycles)
-			shifts := []int{-1, 1, -(n / 2), n/2 + 1, -(n - 7), n - 3, -5, 4099, 1024, -4096, 6144, n / 4, -(n / 8), 3 * (n / 16)}
-			for _, k := range shifts {
-				rot(k) // the checks below undo nothing: shifts accumulate
-			}
+			// and shifts in a simple ratio to n (half, a third, all but one), which for
+			// odd n are (n-1)/2 and (n+1)/2 in both directions
+			shifts := []int{-1, 1, -(n / 2), n/2 + 1, -(n - 7), n - 3, -5, 4099, 1024, -4096, 6144, n / 4, -(n / 8), 3 * (n / 16),
+				n / 2, -(n/2 + 1), (n + 1) / 2, -((n - 1) / 2), n/2 - 1, n / 3, -(n / 3), 2*(n/3) + 1, n - 1, -(n - 1)}
 			total := 0
-			for _, k := range shifts {
+			for si, k := range shifts {
+				rot(k) // nothing is undone: shifts accumulate, and the state is checked after each
 				total += k
-			}
-			kk := ((total % n) + n) % n
-			for i := 0; i < n; i += 1 + i/64 {
-				to := i + kk
-				if to >= n {
-					to -= n
+				kk := ((total % n) + n) % n
+				for i := 0; i < n; i += 1 + i/64 {
+					to := i + kk
+					if to >= n {
+						to -= n
+					}
+					if at(to) != i {
+						c.Fail(map[string]any{"func": "Rotate", "element_type": name, "n": n, "shifts_applied_in_turn": shifts[:si+1], "gomaxprocs": runtime.GOMAXPROCS(0)}, "after the last of these shifts (%d) the element originally at index %d is not at index %d", k, i, to)
+						return false
+					}
 				}
-				if at(to) != i {
-					c.Fail(map[string]any{"func": "Rotate", "element_type": name, "n": n, "shifts_applied_in_turn": shifts, "gomaxprocs": runtime.GOMAXPROCS(0)}, "after the shifts the element originally at index %d is not at index %d", i, to)
-					return false
-				}
+				c.Step()
 			}
-			c.Step()
 			return true
 		}
 		ok, pv, stack := fw.Try(func() {
-			n := []int{1 << 20, 513 * 4096, 1<<21 + 4096, 1 << 22, 1<<23 + 8192, 3 << 20, 1 << 24, 1<<25 + 4096}[c.Block] // multiples of 4096, so that shifts by 1024, 4096, n/4 ... split the slice into many cycles
+			// blocks 0..7: multiples of 4096, so that shifts by 1024, 4096, n/4 ... split the slice into many cycles;
+			// blocks 8..15: odd lengths (one of them prime), from just over 1 MiB of ints upwards
+			n := []int{1 << 20, 513 * 4096, 1<<21 + 4096, 1 << 22, 1<<23 + 8192, 3 << 20, 1 << 24, 1<<25 + 4096,
+				131073, 1<<20 + 1, 999983, 1<<21 - 1, 1<<22 + 1, 1500001, 3<<21 + 1, 1<<24 + 1}[c.Block%16]
 			switch c.Block % 3 {
 			case 0:
 				vs := make([]int, n)
@@ -609,6 +613,9 @@ func runC17(c *fw.Ctx) {
 				rotate("uint32", n, func(k int) { slice.Rotate(vs, k) }, func(i int) int { return int(vs[i]) })
 			default:
 				m := n / 8
+				if n%2 == 1 {
+					m |= 1
+				}
 				vs := make([]wide, m)
 				for i := range vs {
 					vs[i].ID = i
